@@ -308,8 +308,8 @@ let key_of_logs (logs : (int * int * string) list) : string =
 
 let rleak_str = function RLArc -> "arc" | RLAlloc -> "alloc" | RLMsgs -> "msgs"
 
-let ref_keys (weak : bool) (p : prog) : string list =
-  let outs = ref_outcomes weak big_fuel p in
+let ref_keys ?(regions = false) (weak : bool) (p : prog) : string list =
+  let outs = if regions then ref_outcomes_regions big_fuel p else ref_outcomes weak big_fuel p in
   let tbl = Hashtbl.create 64 in
   List.iter
     (fun o ->
@@ -401,6 +401,7 @@ let keys_file which file =
          Printf.printf "PROG %d %s\n" !n id;
          (match which with
          | `Ref w -> List.iter (fun k -> Printf.printf "K %s\n" k) (ref_keys w p)
+         | `RefA -> List.iter (fun k -> Printf.printf "K %s\n" k) (ref_keys ~regions:true false p)
          | `Rc11 st -> List.iter (fun k -> Printf.printf "K %s\n" k) (rc11_keys st p)
          | `Model ->
              let ks, fin = model_keys p in
@@ -645,6 +646,7 @@ let () =
   | [ _; "num"; f ] -> num_file f
   | [ _; "ref"; f ] -> keys_file (`Ref false) f
   | [ _; "refw"; f ] -> keys_file (`Ref true) f
+  | [ _; "refa"; f ] -> keys_file (`RefA) f
   | [ _; "rc11s"; f ] -> keys_file (`Rc11 true) f
   | [ _; "rc11w"; f ] -> keys_file (`Rc11 false) f
   | [ _; "keys"; f ] -> keys_file `Model f
